@@ -26,6 +26,7 @@ ASSUMPTIONS = [
     'the link-local part of a 32-byte IPv6 next hop is not part of the report: the API has one next-hop per route (the global address)',
     'AS paths are compared after coalescing adjacent AS_SEQUENCE segments (splitting a sequence does not change the path)',
     'an empty AS_PATH and no AS_PATH are the same report (ExaBGP prints neither)',
+    'AGGREGATOR: either the RFC 6793 reconciled aggregator under one key, or AGGREGATOR and AS4_AGGREGATOR both as sent under two keys, is an exact report',
     'NEXT_HOP is compared through the next hop of the announced IPv4 routes and, in the attribute list, whenever ExaBGP prints it',
 ]
 TRUSTED_EXTRA = [
@@ -96,9 +97,16 @@ def expected_of_sem(u: dict, shape: dict) -> dict:
 OPAQUE_CODES: set[int] = set()  # attribute codes ExaBGP decodes structurally and M-Wire carries as opaque bytes
 
 
-def comparable_attrs(model_attrs: dict, impl_attrs: dict) -> tuple[dict, dict]:
+def comparable_attrs(model_attrs: dict, impl_attrs: dict, agg: list | None = None) -> tuple[dict, dict]:
     """The two attribute maps restricted to what both sides print (see ASSUMPTIONS)."""
     ma, ia = dict(model_attrs), dict(impl_attrs)
+    if 18 in ia and agg:
+        # AS4_AGGREGATOR printed under a key of its own: both aggregator attributes are reported as
+        # sent, which is exact; the reference values are then the two attributes before reconciliation
+        for c, raw in ((7, agg[0]), (18, agg[1])):
+            ma.pop(c, None)
+            if raw != '-':
+                ma[c] = raw
     if 3 not in ia:
         ma.pop(3, None)  # NEXT_HOP is printed with the routes; in the attribute list only next to withdraws
     if ma.get(2) == '-' and 2 not in ia:
@@ -120,7 +128,7 @@ def diff_reports(model: dict, impl: dict) -> list[str]:
         d.append('ann')
     if model['wd'] != impl['wd']:
         d.append('wd')
-    ma, ia = comparable_attrs(model['attrs'], impl['attrs'])
+    ma, ia = comparable_attrs(model['attrs'], impl['attrs'], model.get('agg'))
     for c in sorted(set(ma) | set(ia)):
         if ma.get(c) != ia.get(c):
             d.append(f'attr:{c}')
@@ -281,9 +289,13 @@ def canon_of(S: wirerig.Session, u: dict, what: str) -> dict:
             canon['as4-path'] = 'empty'
         else:
             canon['as4-path'] = 'non-empty'
-            canon['as4-has-4byte-asn'] = any(x > 65535 for _, asns in p4['segs'] for x in asns)
-            if not what.startswith('raised'):
-                canon['set-or-confed-segment'] = any(t != 2 for t, _ in p2['segs'] + p4['segs'])
+            structured = any(t != 2 for t, _ in p2['segs'] + p4['segs'])
+            if what.startswith('raised'):
+                canon['as4-has-4byte-asn'] = any(x > 65535 for _, asns in p4['segs'] for x in asns)
+            elif structured:
+                canon['set-or-confed-segment'] = True  # one class: the segment structure is lost in the merge
+            else:
+                canon['as4-has-4byte-asn'] = any(x > 65535 for _, asns in p4['segs'] for x in asns)
                 canon['count'] = 'as2<as4' if wiregen.pathcount(p2['segs']) < wiregen.pathcount(p4['segs']) else 'as2>=as4'
     return canon
 
@@ -347,7 +359,7 @@ def norm_sem(u: dict) -> dict:
 def run(ctx: Ctx) -> None:
     rng = ctx.rng
     quick = ctx.tier == 'quick'
-    per_shape = 1000 if quick else 12000
+    per_shape = 800 if quick else 8000
     shapes = SHAPES_QUICK if quick else SHAPES_QUICK + SHAPES_MORE
     ctx.rule = (
         'UPDATE bodies made by the Lean reference encoder from structurally generated UpdateSem values (every recognised attribute kind, any order, extended-length flag on short attributes, partial bit, unknown attributes, '
@@ -370,8 +382,8 @@ def run(ctx: Ctx) -> None:
                 continue
             if 'sem' in c:
                 u = norm_sem(c['sem'])
-                need_ap = {tuple(x) for x in c.get('addpath', [])}
-                if need_ap != {f for f in S.addpath if f in need_ap} or (c.get('no_addpath') and S.addpath):
+                # 'ap': {"afi.safi": bool} = ADD-PATH status the case needs for the families it uses
+                if any((tuple(int(x) for x in f.split('.')) in S.addpath) != want for f, want in c.get('ap', {}).items()):
                     continue
                 cases.append({'s': i, 'origin': 'corpus:' + c['file'], 'sem': u})
             else:
@@ -462,16 +474,16 @@ def run(ctx: Ctx) -> None:
                     fam, nh, nl = item.split('/')
                     f = nl.split(':')
                     key = f'{fam}/' + ':'.join([f[0], '-'] + f[2:])
-                    ref[key] = (nh, f[1], model['attrs'])
+                    ref[key] = (nh, f[1], model['attrs'], model.get('agg'))
                 for item in model['wd']:
                     ref.pop(item, None)
                 got = S.adj_rib_in()
                 if set(got) != set(ref):
                     rwhat = 'rib:routes'
                 else:
-                    for k, (nh, ls, at) in ref.items():
+                    for k, (nh, ls, at, ag) in ref.items():
                         gn, gl, ga = got[k]
-                        ma, ga = comparable_attrs(at, ga)
+                        ma, ga = comparable_attrs(at, ga, ag)
                         if gn != nh:
                             rwhat = 'rib:nexthop'
                         elif gl != ls:
